@@ -174,6 +174,12 @@ func (p Proxy) ServeHTTP(w http.ResponseWriter, r *http.Request) (int, error) {
 		return true
 	}
 
+	// The director and the header rules rewrite the URL and headers of the
+	// outgoing request. Every attempt must start from the request as the
+	// client sent it, so keep pristine copies to restore before each try.
+	origURL := *outreq.URL
+	origHeader := outreq.Header
+
 	var backendErr error
 	for {
 		// since Select() should give us "up" hosts, keep retrying
@@ -188,6 +194,11 @@ func (p Proxy) ServeHTTP(w http.ResponseWriter, r *http.Request) (int, error) {
 			}
 			continue
 		}
+
+		attemptURL := origURL
+		outreq.URL = &attemptURL
+		outreq.Header = make(http.Header, len(origHeader))
+		copyHeader(outreq.Header, origHeader)
 		if rr, ok := w.(*httpserver.ResponseRecorder); ok && rr.Replacer != nil {
 			rr.Replacer.Set("upstream", host.Name)
 		}
@@ -371,6 +382,10 @@ func createUpstreamRequest(rw http.ResponseWriter, r *http.Request) (*http.Reque
 		// separated list and fold multiple headers into one.
 		if prior, ok := outreq.Header["X-Forwarded-For"]; ok {
 			clientIP = strings.Join(prior, ", ") + ", " + clientIP
+		}
+		if !copiedHeaders {
+			outreq.Header = make(http.Header)
+			copyHeader(outreq.Header, r.Header)
 		}
 		outreq.Header.Set("X-Forwarded-For", clientIP)
 	}
